@@ -255,7 +255,13 @@ def gen_plan(r, eng, seed, prop):
         x = keyed_rng(seed, "plan", prop + "-conflict")
         for op in ops:
             if not cmds.mk_cmd(op["cmd"]).sendtwice and x.random() < 0.12:
-                lines, kind = [[x.choice([5, 20, 60]), x.choice(["Z", "Z", "Z01"])]], x.random()
+                lines = []
+                c_ = cmds.mk_cmd(op["cmd"])
+                if not (len(c_.frame) == 16 and (c_.frame.as_integer >> 8) in (0xB1, 0xB3, 0xB5)) and x.random() < 0.5:
+                    # the other master's frames are reported first, the conflict after some of the driver's reads are spent
+                    for _ in range(x.randrange(1, 5)):
+                        lines.append([x.choice([5, 20, 40]), "H%04X" % x.getrandbits(16)])
+                lines.append([x.choice([5, 20, 60]), x.choice(["Z", "Z", "Z01"])])
                 for _ in range(x.randrange(0, 4)):
                     lines.append([x.choice([10, 50, 90, 130, 150, 170]),
                                   x.choice(["J%02X" % x.randrange(256), "JFF", "J00", "N", "H%04X" % x.getrandbits(16)])])
@@ -289,7 +295,9 @@ def shrink(plan):
             p = copy.deepcopy(plan)
             del p["ops"][i]["conflict"]
             yield p
-            for j in range(1, len(op["conflict"])):
+            for j in range(len(op["conflict"])):
+                if op["conflict"][j][1].startswith("Z"):
+                    continue
                 p = copy.deepcopy(plan)
                 del p["ops"][i]["conflict"][j]
                 yield p
